@@ -267,7 +267,17 @@ func CensusDecoder(fn *ssa.Function) DecoderCensus {
 				case isSize(x) && yConst && op == token.NEQ:
 					c.SizeNeq = append(c.SizeNeq, k)
 				case yConst && (op == token.GTR) && IsLenOf(x, func(ssa.Value) bool { return true }):
-					// includes len(input) > K: a bare byte list is bounded on the input itself
+					// includes len(input) > K: a bare byte list is bounded on the input itself.
+					// Inside a per-element callback the bound must be on the callback's own element
+					// (its parameter): a captured variable of the same name is the whole input
+					if f.Parent() != nil && len(f.Params) > 0 && !IsLenOf(x, func(v ssa.Value) bool {
+						return Derives(v, func(z ssa.Value) bool {
+							pa, isP := z.(*ssa.Parameter)
+							return isP && pa.Parent() == f
+						}, DeriveOpts{})
+					}) {
+						break
+					}
 					c.ByteMax = append(c.ByteMax, k)
 				}
 				if i, ok := offIdx(x); ok {
